@@ -59,7 +59,9 @@ Anti == /\ IsEv("anti") /\ UNCHANGED H
 Less == /\ IsEv("less") /\ E.exc = "" /\ UNCHANGED H
         /\ E.r1 = -1 /\ E.r2 = 1 /\ E.lt = 1 /\ E.gt = 1 /\ E.eq = 0
 
-Next == Plain \/ Cmp \/ CmpAlien \/ Hash \/ Copy \/ Swap \/ Same \/ Anti \/ Less
+(* objects of a type with its own allocator: each one released through that allocator, once, and handed over intact *)
+Pool == IsEv("pool") /\ E.exc = "" /\ E.released = 2 * E.n /\ E.garbled = 0 /\ E.inuse = 0 /\ UNCHANGED H
+Next == Plain \/ Pool \/ Cmp \/ CmpAlien \/ Hash \/ Copy \/ Swap \/ Same \/ Anti \/ Less
 Spec == Init /\ [][Next]_vars
 Accepted == LET d == TLCGet("stats").diameter IN
             /\ PrintT(<<"TRACE_MATCHED", d - 1, Len(T)>>)
